@@ -38,8 +38,72 @@ LEAN_MODULES = ["LenaModel.Props.C18"]
 LEAN_SOURCES = ["LenaModel/Model/C18.lean", "LenaModel/Lemmas/C18.lean", "LenaModel/Props/C18.lean"]
 DRIVER = "drivers/C18.lean"
 THEOREMS = [
+    "Lena.C18.hoisted_same_chain",
+    "Lena.C18.run_yields_flow",
+    "Lena.C18.run_exhausted_iff",
+    "Lena.C18.first_run_transparent",
+    "Lena.C18.first_run_does_not_touch_cache_file",
+    "Lena.C18.first_run_stores",
+    "Lena.C18.replay_exact_no_pull",
+    "Lena.C18.replay_last",
+    "Lena.C18.first_complete_run_then_replay",
+    "Lena.C18.recompute_restores_first_run",
+    "Lena.C18.drop_spec",
+    "Lena.C18.drop_restores_first_run",
+    "Lena.C18.interrupted_run_keeps_cache_files",
+    "Lena.C18.step_final_cases",
+    "Lena.C18.cache_complete",
+    "Lena.C18.later_run_serves_complete_flow",
+    "Lena.C18.nextUppers_spec",
+    "Lena.C18.drive_spec",
 ]
 CASE_TIMEOUT = 10
+TRUSTED = [
+    "Lean 4.33.0 kernel; axioms limited to propext, Classical.choice, Quot.sound (audited by #print axioms on every run)",
+    "hand transcription of lena/flow/cache.py (run, cache_exists, drop_cache, _dump_flow_and_yield, _load_flow, "
+    "alter_sequence), lena/core/meta.py (alter_sequence) and of the way Sequence.run / Source.__call__ nest generators "
+    "into LenaModel/Model/C18.lean, validated by this correspondence check (outputs, end of the run, ordered event "
+    "trace of the instrumented source and elements, existence of cache and temporary files after every value, "
+    "content of the cache files after every operation)",
+    "CPython generator semantics as transcribed: a generator body starts at the first next(); dropping or closing a "
+    "suspended generator raises GeneratorExit at its yield, downstream generators first; a fresh or finished generator "
+    "does nothing when closed (validated likewise, with generators finalised at once, later, or never)",
+    "the Python reference semantics of the oracle (harness/props/c18.py: _pipe_flow) and its Lean counterpart pipeFlow, "
+    "compared on every run operation",
+    "JSON line protocol encoders (harness/props/c18.py, drivers/C18.lean)",
+]
+ASSUMPTIONS = [
+    "pickle round trip: pickle.load returns the dumped values in order and raises EOFError exactly at the end of the "
+    "file (checked on every case for ints, (data, context) pairs, strings, lists, nested dicts, None and falsy values, "
+    "protocols 0-5, methods pickle/cPickle)",
+    "file names: distinct Cache elements of one pipeline use distinct files, and no cache file name is the temporary "
+    "name (<name>.tmp) of another cache (theorem hypothesis Distinct); os.replace is atomic",
+    "name-level file system: a file object still held by a suspended generator cannot change what a file name denotes "
+    "after a later run has re-created the file (true since dd601f1; before it the correspondence check and the oracle "
+    "failed on exactly the histories 'leaked interrupted run, later run on the same cache, late finalisation')",
+    "histories are sequential: runs do not overlap in time; a generator kept alive by an interrupted run is finalised "
+    "between operations (or never), not while another run on the same cache file is in progress.  Two runs that are "
+    "active at the same time on one cache file are outside the property's histories and are neither modelled nor "
+    "generated (there the later run's os.replace fails with FileNotFoundError after it has yielded its whole flow; no "
+    "truncated cache is stored or served)",
+    "a Cache inside a Sequence branch of lena.core.Split is run once per buffer (documented in Split.run: 'this may be "
+    "very wrong if seq has internal state, e.g. contains a Cache'): each buffer is 'the flow' of that run; Split is not "
+    "modelled here (C03)",
+    "permissions (os.access false for an existing file, LenaEnvironmentError of drop_cache) and Python 2 branches are "
+    "not modelled",
+]
+RULE = ("quick and thorough: exhaustive families — A: one cache in 4 pipeline shapes x source length 0..3 (thorough 0..5) "
+        "x every crash point of the first run (consumer stops after k=0..n, source raises at k=0..n, each map element "
+        "raises at k=0..n-1, complete) x generators closed or leaked x second run complete or interrupted+leaked x "
+        "plain or hoisted x late finalisation or none, then a complete third run; B: two caches in 4 shapes x every "
+        "crash point x drop / recompute of either cache; C: all 1331 histories of 3 operations over an alphabet of 11 "
+        "(complete, stop, stop+leak, source raises, downstream element raises + leak, upstream element raises, recompute "
+        "of either cache, drop of either cache, finalize) on M C0 M C1 M followed by a complete run; D: the 7 ways of "
+        "calling (Source, Sequence.run, Cache.alter_sequence of a Sequence / of a Source, lena.core.alter_sequence, bare "
+        "element through either) x every filling state x every nesting of a sub-Sequence. Value kinds (ints, pairs with "
+        "context, mixed, falsy/None) rotate over the cases. Plus 2500 (thorough 60000) seeded random histories: up to 6 "
+        "operations, up to 3 caches and 3 map elements per pipeline, source length 0..6, pickle protocols 0-5. "
+        "Non-trivial: at least one run of the history yields a value.")
 
 MODES = ("source", "sequence", "hoist", "hoist_src", "meta", "bare_hoist", "bare_meta")
 
@@ -184,7 +248,8 @@ def _build(op, names, vk, log):
         if e["k"] == "map":
             els.append(_Map(j, e, vk, log))
         else:
-            els.append(lena.flow.Cache(names[e["c"]], recompute=bool(e["rc"])))
+            els.append(lena.flow.Cache(names[e["c"]], recompute=bool(e["rc"]), method=e.get("method", "cPickle"),
+                                       protocol=e.get("proto", 2)))
     mode = op.get("mode", "source")
     if mode in ("bare_hoist", "bare_meta"):
         el = els[0]
@@ -214,7 +279,12 @@ def _build(op, names, vk, log):
 def _run_op(op, names, vk, leaked):
     log = []
     ob = {"out": [], "snaps": []}
-    it = _build(op, names, vk, log)
+    try:
+        it = _build(op, names, vk, log)
+    except Exception as e:      # building a pipeline runs no generator body: nothing of ours can raise here
+        ob["end"] = "build:" + exc_name(e)
+        ob["ev"] = log
+        return ob
     take = op["take"]
     held = None
     try:
@@ -595,7 +665,8 @@ def _random_case(rng):
         else:
             ids = [c for c in range(nc) if rng.random() < 0.75]
             rng.shuffle(ids)
-            els = [C(c, rng.random() < 0.2) for c in ids]
+            els = [dict(C(c, rng.random() < 0.2), proto=rng.randint(0, 5), method=rng.choice(["pickle", "cPickle"]))
+                   for c in ids]
             for _ in range(rng.randint(0, 3)):
                 els.insert(rng.randint(0, len(els)), M(rng.randint(1, 9)))
             n = rng.randint(0, 6)
@@ -625,17 +696,35 @@ def gen_cases(ctx):
     rng = ctx.rng
     quick = ctx.tier == "quick"
     cases = []
-    cases.extend(_family_a(range(0, 3) if quick else range(0, 6)))
+    cases.extend(_family_a(range(0, 4) if quick else range(0, 6)))
     cases.extend(_family_b(2))
     if not quick:
         cases.extend(_family_b(3))
-    cases.extend(_family_c(2 if quick else 3))
+    cases.extend(_family_c(3))
     cases.extend(_family_d())
     for i, c in enumerate(cases):
         c["vk"] = _VKS[i % 4]
-    ctx.exhaustive = quick
-    for _ in range(600 if quick else 40000):
+    ctx.exhaustive = False     # the enumerated families are complete; the random histories are sampled
+    for _ in range(2500 if quick else 60000):
         c = _random_case(rng)
         c["vk"] = rng.choice(_VKS)
         cases.append(c)
     return cases
+
+
+# ---- MANIFEST texts ------------------------------------------------------------------------
+LEVEL_TEXT = ("Lean 4 theorems about a transcribed generator machine (Cache.run / _dump_flow_and_yield / _load_flow / "
+              "alter_sequence inside Sequence.run and Source.__call__, with explicit crash points and an abstract file "
+              "system), for all pipelines with distinct caches, all sources, all demands of the consumer, all ways of "
+              "calling and all histories of run / drop_cache / finalize operations (no bound): a run yields the flow "
+              "unaltered, a complete first run stores exactly the complete flow that entered the cache, a replay yields "
+              "exactly the stored values with no event upstream of the cache, hoisting builds the same generators, "
+              "recompute and drop_cache restore first-run behaviour, an interrupted run changes no cache file, and over "
+              "every history a cache file only ever holds the complete flow of a run that reached its normal end. The "
+              "model is tied to /repo by a correspondence check on event traces and file-system snapshots over exhaustive "
+              "small scopes plus seeded random histories, and a direct oracle evaluates the statement on the real code.")
+LEVEL_NOTE = ("Trusted: Lean kernel (+ propext, Classical.choice, Quot.sound), the hand transcription validated by the "
+              "correspondence run, CPython generator finalisation and pickle/os semantics as transcribed, the JSON "
+              "protocol. Concurrently active runs on one cache file and Split's per-buffer runs are outside the model.")
+TECHNIQUE = "Lean 4 proof (one-step simulation + history invariant) over hand-written generator/file-system model + correspondence check"
+DESIGN_REF = "DESIGN.md section 3, C18"
